@@ -395,6 +395,46 @@ example : str2timedelta (timedelta2str ⟨-1, 86399, 999999⟩) = some (-1) := b
 example : str2timedelta "-0:0:0.000001".toList = some (-1) := by decide
 example : str2timedelta "25:2:3".toList = some 90123000000 := by decide
 
+/-! ### column affinity: DATE / TIME / DATETIME columns have NUMERIC affinity, yet the texts Pony binds stay TEXT -/
+
+example : affinityOf "DATE".toList = .numeric ∧ affinityOf "TIME(3)".toList = .numeric ∧ affinityOf "DATETIME".toList = .numeric ∧
+    affinityOf "DECIMAL(12, 2)".toList = .numeric ∧ affinityOf "JSON".toList = .numeric ∧ affinityOf "UUID".toList = .numeric ∧
+    affinityOf "INTERVAL".toList = .integer ∧ affinityOf "VARCHAR(40)".toList = .text ∧ affinityOf "BIGINT".toList = .integer := by decide
+
+theorem textStaysText_of_not_numeric (a : Affinity) (s : List Char) (h : looksNumeric s = false) : textStaysText a s = true := by
+  cases a <;> simp [textStaysText, h]
+
+/-- the ISO text of every date is not a numeric literal: whatever the column's affinity, SQLite keeps it as TEXT -/
+theorem C07_affinity_date (a : Affinity) (x : Date) : textStaysText a (dateToText x) = true := by
+  apply textStaysText_of_not_numeric
+  exact looksNumeric_digits_then 3 x.y '-' _ (by decide) (by decide) (by decide) (by decide) (by decide)
+
+/-- likewise the text of every time (with or without microseconds) -/
+theorem C07_affinity_time (a : Affinity) (t : Time) : textStaysText a (timeToText t) = true := by
+  apply textStaysText_of_not_numeric
+  unfold timeToText hmsText
+  split <;> exact looksNumeric_digits_then 1 t.h ':' _ (by decide) (by decide) (by decide) (by decide) (by decide)
+
+/-- and the 26-character timestamp of every datetime -/
+theorem C07_affinity_datetime (a : Affinity) (x : DateTime) : textStaysText a (datetime2timestamp x) = true := by
+  apply textStaysText_of_not_numeric
+  have h : ∀ rest : List Char, looksNumeric (dateToText x.date ++ rest) = false := by
+    intro rest
+    unfold dateToText
+    rw [List.append_assoc]
+    exact looksNumeric_digits_then 3 x.date.y '-' _ (by decide) (by decide) (by decide) (by decide) (by decide)
+  unfold datetime2timestamp isoDateTime
+  simp only
+  split
+  · rw [List.append_assoc]; exact h _
+  · exact h _
+
+/-- the decimal text of a Decimal IS a numeric literal: in the NUMERIC-affinity DECIMAL column it is converted to INTEGER/REAL
+    (the mechanism of the known finding sqlite-decimal-numeric-affinity-loses-digits) -/
+example : textStaysText (affinityOf "DECIMAL(30, 2)".toList) "12345678901234567.89".toList = false := by decide
+example : textStaysText (affinityOf "JSON".toList) "1180591620717411303425".toList = false := by decide
+example : textStaysText (affinityOf "JSON".toList) "\"1e5\"".toList = true := by decide
+
 /-! ### query parameters: `e.attr == param` compares the stored encoding with the encoding of the parameter
    (the parameter goes through the same `py2sql`), so it selects exactly the rows holding an equal value -/
 
